@@ -78,8 +78,8 @@ def repOK (ex fwd : Bool) (noAct : Name → Bool) (e : Ev) (post : List Ev) : Bo
   | .failure n k =>
     firstFinal n post &&
       (match k with
-       | .failed => post.any (Ev.isFinOf n) && (!ex || post.any (Ev.isExecOf n))
-       | .error => post.any (Ev.isFinOf n) && (!ex || post.any (Ev.isExecOf n))
+       | .failed => (noAct n || post.any (Ev.isFinOf n)) && (!ex || post.any (Ev.isExecOf n))
+       | .error => (noAct n || post.any (Ev.isFinOf n)) && (!ex || post.any (Ev.isExecOf n))
        | .unmet => !post.any (Ev.isStartOf n) && !post.any (Ev.isExecOf n)
        | .depErr => true)
   | .skipUtd n => firstFinal n post && !post.any (Ev.isStartOf n) && !post.any (Ev.isExecOf n)
